@@ -84,6 +84,7 @@ type grepOpts struct {
 	AttrPat                            [][2]string
 	IDList                             []string // nil: not given
 	Expr                               []string // "annotations.count OP N"
+	Approx                             *approxOpt
 	Invert                             bool
 	SaveDiscarded                      bool
 	PairedMode                         string // "": unpaired input
@@ -208,6 +209,18 @@ func (o grepOpts) args(dir string) []string {
 	for _, e := range o.Expr {
 		a = append(a, "-p", e)
 	}
+	if o.Approx != nil {
+		a = append(a, "--approx-pattern", o.Approx.Pat)
+		if o.Approx.Err > 0 {
+			a = append(a, "--pattern-error", fmt.Sprint(o.Approx.Err))
+		}
+		if o.Approx.Indels {
+			a = append(a, "--allows-indels")
+		}
+		if o.Approx.OnlyFwd {
+			a = append(a, "--only-forward")
+		}
+	}
 	if o.Tax != nil {
 		a = append(a, "-t", filepath.Join(dir, "taxdump"))
 		for _, x := range o.Restrict {
@@ -231,6 +244,9 @@ func (o grepOpts) args(dir string) []string {
 
 func (o grepOpts) criteria() int {
 	n := len(o.SeqPat) + len(o.DefPat) + len(o.IDPat) + len(o.HasAttr) + len(o.AttrPat) + len(o.Expr)
+	if o.Approx != nil {
+		n++
+	}
 	for _, v := range []int{o.MinLen, o.MaxLen, o.MinCount, o.MaxCount} {
 		if v > 0 {
 			n++
@@ -303,9 +319,146 @@ func evalExpr(e string, r irec) bool {
 	return exprFns[e](r)
 }
 
+// ---- approximate IUPAC pattern (--approx-pattern) ---------------------------------
+
+type approxOpt struct {
+	Pat     string
+	Err     int
+	Indels  bool
+	OnlyFwd bool
+}
+
+var iupacSet = map[byte]string{
+	'a': "a", 'c': "c", 'g': "g", 't': "t", 'r': "ag", 'y': "ct", 'm': "ac", 'k': "gt", 's': "cg", 'w': "at",
+	'b': "cgt", 'd': "agt", 'h': "act", 'v': "acg", 'n': "acgt",
+}
+
+func symMatches(sym, base byte) bool {
+	return strings.IndexByte(iupacSet[sym], base) >= 0
+}
+
+// patternOccurs: the pattern occurs somewhere in s with at most e differences - substitutions
+// only, or substitutions, insertions and deletions (edit distance to a substring of s).
+func patternOccurs(pat, s string, e int, indels bool) bool {
+	m, n := len(pat), len(s)
+	if !indels {
+		for i := 0; i+m <= n; i++ {
+			d := 0
+			for j := 0; j < m && d <= e; j++ {
+				if !symMatches(pat[j], s[i+j]) {
+					d++
+				}
+			}
+			if d <= e {
+				return true
+			}
+		}
+		return false
+	}
+	prev := make([]int, n+1) // row 0: an occurrence may start anywhere
+	cur := make([]int, n+1)
+	for i := 1; i <= m; i++ {
+		cur[0] = i
+		for j := 1; j <= n; j++ {
+			c := prev[j-1]
+			if !symMatches(pat[i-1], s[j-1]) {
+				c++
+			}
+			if prev[j]+1 < c {
+				c = prev[j] + 1
+			}
+			if cur[j-1]+1 < c {
+				c = cur[j-1] + 1
+			}
+			cur[j] = c
+		}
+		prev, cur = cur, prev
+	}
+	for j := 0; j <= n; j++ {
+		if prev[j] <= e {
+			return true
+		}
+	}
+	return false
+}
+
+func (a *approxOpt) keeps(seq string) bool {
+	pat := strings.ToLower(a.Pat)
+	if patternOccurs(pat, seq, a.Err, a.Indels) {
+		return true
+	}
+	// the other strand: the pattern read on the reverse complement of the sequence
+	return !a.OnlyFwd && patternOccurs(pat, modelRC(seq), a.Err, a.Indels)
+}
+
+// drawApprox derives a pattern from a window of one record: some positions generalised to
+// ambiguity codes, possibly written for the other strand, possibly one difference away.
+func drawApprox(t *simrt.Tape, recs []Rec) *approxOpt {
+	var cands []Rec
+	for _, r := range recs {
+		if len(r.Seq) >= 12 {
+			cands = append(cands, r)
+		}
+	}
+	if len(cands) == 0 {
+		return nil
+	}
+	r := cands[t.Choose(len(cands))]
+	m := 8 + t.Choose(5)
+	short := t.Choose(3) == 2
+	if short {
+		m = 4 + t.Choose(3) // a short motif: many records carry it on one strand or the other
+	}
+	from := t.Choose(len(r.Seq) - m + 1)
+	w := []byte(r.Seq[from : from+m])
+	a := &approxOpt{Err: []int{0, 0, 1, 2}[t.Choose(4)], Indels: t.Choose(3) == 2, OnlyFwd: t.Choose(4) == 3}
+	if short {
+		a.Err = 0
+	}
+	if a.Err == 0 {
+		a.Indels = false
+	}
+	// generalise 0-3 positions to a code that contains the base
+	for k := t.Choose(4); k > 0; k-- {
+		i := t.Choose(m)
+		if strings.IndexByte(dna, w[i]) < 0 {
+			continue // already an ambiguity code
+		}
+		var codes []byte
+		for sym, set := range iupacSet {
+			if len(set) > 1 && strings.IndexByte(set, w[i]) >= 0 {
+				codes = append(codes, sym)
+			}
+		}
+		sort.Slice(codes, func(x, y int) bool { return codes[x] < codes[y] })
+		w[i] = codes[t.Choose(len(codes))]
+	}
+	// one difference away from the window it was cut from
+	if a.Err > 0 && t.Choose(2) == 1 {
+		i := 1 + t.Choose(m-2)
+		if a.Indels && t.Choose(2) == 1 {
+			w = append(w[:i], w[i+1:]...) // the sequence has one base more than the pattern
+		} else {
+			w[i] = dna[(strings.IndexByte(dna, r.Seq[from+i])+1+t.Choose(3))%4]
+		}
+	}
+	pat := string(w)
+	if t.Choose(2) == 1 {
+		pat = modelRC(pat) // c07Comp is the IUPAC complement: the occurrence is then on the other strand
+	}
+	if t.Choose(2) == 1 {
+		pat = strings.ToUpper(pat)
+	}
+	a.Pat = pat
+	return a
+}
+
 // satisfies: every requested criterion holds for the record.
 func (o grepOpts) satisfies(r irec) bool {
 	L := len(r.Seq)
+	if o.Approx != nil && !o.Approx.keeps(r.Seq) {
+		return false
+	}
 	if o.MinLen > 0 && L < o.MinLen {
 		return false
 	}
@@ -435,7 +588,9 @@ func drawGrepOpts(t *simrt.Tape, recs []Rec) grepOpts {
 		n = 4 + t.Choose(3)
 	}
 	for i := 0; i < n; i++ {
-		switch t.Choose(11) {
+		switch t.Choose(13) {
+		case 11, 12:
+			o.Approx = drawApprox(t, recs)
 		case 0:
 			o.MinLen = boundary()
 		case 1:
@@ -1165,7 +1320,7 @@ func init() {
 		Random: func(tier string) int { return map[string]int{"quick": 700, "thorough": 30000}[tier] },
 		Run:    runC16,
 		Level:  "exploration",
-		Rule:   "each case = generated records and a drawn subset of options (single options, pairs, larger subsets; repeatable options 1-3 times; length and count values at and around existing values) for obigrep (-l -L -c -C -s -D -I -A -a --id-list -p with comparisons of annotations.count, annotations.sample and sequence.Len() joined by && || ! -v --save-discarded, and --paired-with x --paired-mode forward/reverse/and/or/andnot/xor), obiannotate (--clear --set-identifier --delete-tag -k -R --length -S --cut), obidistribute (-c -p --na-value --batches --hash -Z --fasta-output, and a second run with -A on existing files) and obimultiplex -u, run through the real main of the command in a child process under a drawn --max-cpu / --batch-size / schedule / pool policy; a reference interpreter of the options' documented meaning computes the kept records, the discarded records, the edited records, the output file of each record and the mate ranks. distinct = distinct (command, option vector, configuration, schedule signature); non-trivial = at least one step with >=2 runnable tasks",
+		Rule:   "each case = generated records and a drawn subset of options (single options, pairs, larger subsets; repeatable options 1-3 times; length and count values at and around existing values) for obigrep (-l -L -c -C -s --approx-pattern (IUPAC codes, --pattern-error 0-2, --allows-indels, --only-forward, either strand) -D -I -A -a --id-list -p with comparisons of annotations.count, annotations.sample and sequence.Len() joined by && || ! -v --save-discarded, and --paired-with x --paired-mode forward/reverse/and/or/andnot/xor), obiannotate (--clear --set-identifier --delete-tag -k -R --length -S --cut), obidistribute (-c -p --na-value --batches --hash -Z --fasta-output, and a second run with -A on existing files) and obimultiplex -u, run through the real main of the command in a child process under a drawn --max-cpu / --batch-size / schedule / pool policy; a reference interpreter of the options' documented meaning computes the kept records, the discarded records, the edited records, the output file of each record and the mate ranks. distinct = distinct (command, option vector, configuration, schedule signature); non-trivial = at least one step with >=2 runnable tasks",
 		Real:   []string{"the real mains of obigrep, obiannotate, obidistribute, obimultiplex", "obiseq predicates, workers, expression language", "obiiter FilterOn / DivideOn / Distribute / PairTo", "WriterDispatcher and the writers on real files"},
 		Stub:   []string{"sync primitives, pools, scheduler (simrt)", "process exit (captured)", "the reference interpreter stands for the documentation of the options (stated subset only: no --aho-corasick, --pattern, taxonomy options, scripts)"},
 	})
